@@ -4,7 +4,8 @@
 //! alphabet (both booleans, integer / float edge values, None/Some, every enum variant, nested
 //! option structs), in thorough also all pairs of substitutions:
 //!   to_value -> from_value -> to_value is a fixed point and keeps every field,
-//!   the Debug field list is a subset of the JSON keys (no field silently skipped),
+//!   every field the serialiser emits equals what went in; fields it leaves out are kept in the
+//!   alphabet by a recorded field inventory and judged at the value level (Debug identity),
 //!   a chain built from the round-tripped settings draws bit-identical values.
 
 use std::collections::BTreeSet;
@@ -53,6 +54,51 @@ fn keys_rec(v: &Value, out: &mut BTreeSet<String>) {
             keys_rec(x, out);
         }
     }
+}
+
+/// Field inventory of the six presets' default settings, recorded from the tree the harness was
+/// written against (`data/c19_templates.json`). The leaf alphabet is taken from the union of this
+/// inventory and what the serialiser under test emits, so a serialiser that starts to leave a
+/// block out does not silently shrink the set of fields that are substituted.
+const TEMPLATES: &str = include_str!("../data/c19_templates.json");
+
+fn merge(cur: &Value, tmpl: &Value) -> Value {
+    match (cur, tmpl) {
+        (Value::Object(c), Value::Object(t)) => {
+            let mut out = c.clone();
+            for (k, tv) in t {
+                let merged = match c.get(k) {
+                    Some(cv) => merge(cv, tv),
+                    None => tv.clone(),
+                };
+                out.insert(k.clone(), merged);
+            }
+            Value::Object(out)
+        }
+        _ => cur.clone(),
+    }
+}
+
+/// `a` agrees with `b` wherever both have a value (absent == null == nothing to compare)
+fn agree_where_both(a: &Value, b: &Value) -> bool {
+    match (a, b) {
+        (Value::Object(x), Value::Object(y)) => x.iter().all(|(k, xv)| match y.get(k) {
+            Some(yv) if !xv.is_null() && !yv.is_null() => agree_where_both(xv, yv),
+            _ => true,
+        }),
+        _ => a == b,
+    }
+}
+
+fn has_path(v: &Value, path: &[String]) -> bool {
+    let mut cur = v;
+    for k in path {
+        match cur.get(k) {
+            Some(x) => cur = x,
+            None => return false,
+        }
+    }
+    !cur.is_null()
 }
 
 fn alphabet(old: &Value) -> Vec<(Value, bool)> {
@@ -201,6 +247,37 @@ fn check_value<S: Settings + std::fmt::Debug + Default>(
     check_settings_value::<S>(preset, s1, Some(modified), &key, replay, run_chains, what, p);
 }
 
+/// A substituted leaf that the serialiser leaves out again cannot be compared in the JSON; the
+/// value built from it must then at least differ from the value built from the base JSON (the
+/// substitution reached the field), otherwise the alphabet does not reach this field at all.
+fn check_substitution_took_effect<S: Settings + std::fmt::Debug + Default>(
+    preset: Preset,
+    base: &Value,
+    modified: &Value,
+    path: &[String],
+    what: &str,
+    p: &mut Partial,
+) {
+    if get_path(base, path) == get_path(modified, path) {
+        return;
+    }
+    let (Ok(s0), Ok(s1)) = (serde_json::from_value::<S>(base.clone()), serde_json::from_value::<S>(modified.clone())) else {
+        return;
+    };
+    let Ok(v1) = serde_json::to_value(&s1) else { return };
+    if has_path(&v1, path) {
+        return; // judged by the JSON comparison
+    }
+    p.count("substituted_leaf_absent_from_serialised_json", 1);
+    if format!("{s0:?}") == format!("{s1:?}") {
+        p.violation(
+            format!("C19/field-ignored-by-deserialiser/{preset:?}/{what}"),
+            format!("the settings built from the JSON with {} substituted are identical to those built without it, and the field does not come back in the serialised JSON", path.join(".")),
+            json!({"preset": format!("{preset:?}"), "settings_json": modified}),
+        );
+    }
+}
+
 /// the round-trip oracles, starting from a settings VALUE (built from JSON or directly in Rust)
 #[allow(clippy::too_many_arguments)]
 fn check_settings_value<S: Settings + std::fmt::Debug + Default>(
@@ -220,7 +297,9 @@ fn check_settings_value<S: Settings + std::fmt::Debug + Default>(
             return;
         }
     };
-    let same_as_input = modified.map(|m| strip_nulls(&v1) == strip_nulls(m)).unwrap_or(true);
+    // every field the serialiser emits equals what went in (a field it leaves out - an optional
+    // that is None, a block that only repeats defaults - is judged by the value-level oracles)
+    let same_as_input = modified.map(|m| agree_where_both(&strip_nulls(&v1), &strip_nulls(m))).unwrap_or(true);
     let modified = modified.unwrap_or(&v1);
     if !same_as_input {
         p.violation(
@@ -248,11 +327,9 @@ fn check_settings_value<S: Settings + std::fmt::Debug + Default>(
     let dk = debug_keys(&s1);
     let missing: Vec<&String> = dk.iter().filter(|k| !jk.contains(*k)).collect();
     if !missing.is_empty() {
-        p.violation(
-            format!("C19/field-not-serialised/{key}"),
-            format!("fields {missing:?} of the settings value do not appear in its JSON"),
-            replay.clone(),
-        );
+        // not a violation by itself (the property is about the round trip); the field inventory
+        // keeps such fields in the alphabet and the value-level oracles below judge them
+        p.count("values_with_fields_absent_from_json", 1);
     }
     if format!("{s1:?}") != format!("{s2:?}") {
         p.violation(format!("C19/fields-differ-after-round-trip/{key}"), String::new(), replay.clone());
@@ -262,7 +339,11 @@ fn check_settings_value<S: Settings + std::fmt::Debug + Default>(
         Ok(list) => {
             for (writer, stored) in list {
                 p.count("zarr_metadata_compared", 1);
-                if stored != v1 {
+                let same = match serde_json::from_value::<S>(stored.clone()) {
+                    Ok(sm) => format!("{sm:?}") == format!("{s1:?}"),
+                    Err(_) => false,
+                };
+                if !same {
                     p.violation(format!("C19/trace-metadata-settings-differ/{writer}/{key}"), format!("stored {stored} but the run used {v1}"), replay.clone());
                 }
             }
@@ -290,6 +371,8 @@ fn check_settings_value<S: Settings + std::fmt::Debug + Default>(
 
 struct Job {
     preset: Preset,
+    base: std::sync::Arc<Value>,
+    path: Vec<String>,
     modified: Value,
     what: String,
     must: bool,
@@ -297,8 +380,22 @@ struct Job {
 }
 
 fn jobs_for<S: Settings + std::fmt::Debug + Default>(preset: Preset, default: S, tier: Tier, out: &mut Vec<Job>, p: &mut Partial) {
-    let base = serde_json::to_value(&default).unwrap();
-    out.push(Job { preset, modified: base.clone(), what: "default".into(), must: true, run_chains: true });
+    let cur = serde_json::to_value(&default).unwrap();
+    let templates: Value = serde_json::from_str(TEMPLATES).expect("data/c19_templates.json");
+    let merged = merge(&cur, &templates[format!("{preset:?}")]);
+    // the inventory is only used while it still describes the defaults of the code under test
+    let base = match serde_json::from_value::<S>(merged.clone()) {
+        Ok(s) if format!("{s:?}") == format!("{default:?}") => merged,
+        _ => {
+            p.count("field_inventory_stale", 1);
+            cur.clone()
+        }
+    };
+    if base != cur {
+        p.count("presets_with_inventory_fields_absent_from_default_json", 1);
+    }
+    let base_arc = std::sync::Arc::new(base.clone());
+    out.push(Job { preset, base: base_arc.clone(), path: vec![], modified: cur.clone(), what: "default".into(), must: true, run_chains: true });
     let mut paths = vec![];
     leaves(&base, &mut vec![], &mut paths);
     let mut singles: Vec<(Vec<String>, Value, bool)> = vec![];
@@ -312,7 +409,7 @@ fn jobs_for<S: Settings + std::fmt::Debug + Default>(preset: Preset, default: S,
         let mut m = base.clone();
         set_path(&mut m, path, cand.clone());
         let what = format!("{}={}", path.join("."), cand);
-        out.push(Job { preset, modified: m, what, must: *must, run_chains: true });
+        out.push(Job { preset, base: base_arc.clone(), path: path.clone(), modified: m, what, must: *must, run_chains: true });
     }
     if tier == Tier::Thorough {
         for i in 0..singles.len() {
@@ -330,7 +427,7 @@ fn jobs_for<S: Settings + std::fmt::Debug + Default>(preset: Preset, default: S,
                     singles[j].0.join("."),
                     singles[j].1
                 );
-                out.push(Job { preset, modified: m, what, must: singles[i].2 && singles[j].2, run_chains: false });
+                out.push(Job { preset, base: base_arc.clone(), path: vec![], modified: m, what, must: singles[i].2 && singles[j].2, run_chains: false });
             }
         }
     }
@@ -345,6 +442,17 @@ pub fn run(tier: Tier, _replay: Option<String>) -> i32 {
         "six presets x {default; every leaf of the settings JSON substituted by every value of its type alphabet (bools, ints {0,1,2,7,1000,2^32+16,2^53+1,0x9E3779B97F4A7C15}, floats {0,1e-3,0.5,0.999,1.5,1.2e15,5e-324,-2.5}, null<->number, every enum variant incl. Fixed(x)); thorough: all pairs}; oracles: JSON fixed point and field identity, Debug field list subset of JSON keys, bit-identical chains (30 draws NUTS / 10 MCLMC, 200k-evaluation watchdog) from round-tripped settings. distinct = (preset, field) classes",
     );
     report.assume("non-finite floats are outside the quantifier (JSON has no representation); substitutions whose JSON type does not fit the field are skipped and counted");
+    if let Ok(path) = std::env::var("VERIF_C19_DUMP_TEMPLATE") {
+        // maintenance: record the field inventory from the tree the harness is written against
+        let t = json!({
+            "DiagNuts": nuts_rs::DiagNutsSettings::default(), "LowRankNuts": nuts_rs::LowRankNutsSettings::default(),
+            "FlowNuts": nuts_rs::FlowNutsSettings::default(), "DiagMclmc": nuts_rs::DiagMclmcSettings::default(),
+            "LowRankMclmc": nuts_rs::LowRankMclmcSettings::default(), "FlowMclmc": nuts_rs::FlowMclmcSettings::default(),
+        });
+        std::fs::write(&path, serde_json::to_string_pretty(&t).unwrap()).expect("write template");
+        eprintln!("wrote {path}");
+        return 0;
+    }
     let mut jobs = vec![];
     let mut p0 = Partial::new();
     jobs_for(Preset::DiagNuts, nuts_rs::DiagNutsSettings::default(), tier, &mut jobs, &mut p0);
@@ -416,13 +524,21 @@ pub fn run(tier: Tier, _replay: Option<String>) -> i32 {
     report.bounds = json!({"jobs": jobs.len()});
     mc_core::par_for_each(&jobs, |_, j| {
         let mut p = Partial::new();
+        macro_rules! go {
+            ($ty:ty) => {{
+                check_value::<$ty>(j.preset, &j.modified, &j.what, j.must, j.run_chains, &mut p);
+                if !j.path.is_empty() {
+                    check_substitution_took_effect::<$ty>(j.preset, &j.base, &j.modified, &j.path, &j.what, &mut p);
+                }
+            }};
+        }
         match j.preset {
-            Preset::DiagNuts => check_value::<nuts_rs::DiagNutsSettings>(j.preset, &j.modified, &j.what, j.must, j.run_chains, &mut p),
-            Preset::LowRankNuts => check_value::<nuts_rs::LowRankNutsSettings>(j.preset, &j.modified, &j.what, j.must, j.run_chains, &mut p),
-            Preset::FlowNuts => check_value::<nuts_rs::FlowNutsSettings>(j.preset, &j.modified, &j.what, j.must, j.run_chains, &mut p),
-            Preset::DiagMclmc => check_value::<nuts_rs::DiagMclmcSettings>(j.preset, &j.modified, &j.what, j.must, j.run_chains, &mut p),
-            Preset::LowRankMclmc => check_value::<nuts_rs::LowRankMclmcSettings>(j.preset, &j.modified, &j.what, j.must, j.run_chains, &mut p),
-            Preset::FlowMclmc => check_value::<nuts_rs::FlowMclmcSettings>(j.preset, &j.modified, &j.what, j.must, j.run_chains, &mut p),
+            Preset::DiagNuts => go!(nuts_rs::DiagNutsSettings),
+            Preset::LowRankNuts => go!(nuts_rs::LowRankNutsSettings),
+            Preset::FlowNuts => go!(nuts_rs::FlowNutsSettings),
+            Preset::DiagMclmc => go!(nuts_rs::DiagMclmcSettings),
+            Preset::LowRankMclmc => go!(nuts_rs::LowRankMclmcSettings),
+            Preset::FlowMclmc => go!(nuts_rs::FlowMclmcSettings),
         }
         report.merge(p);
     });
